@@ -122,3 +122,21 @@ def _replay_release(model, ob):
             return {"confirmed": True, "function": "on_component_rendered (through Component.render)", "inputs": {"on_render_after": mode},
                     "expected": "per-render registries as before the render", "observed": got or f"(context cache, provide references, reference ids) {before} -> {after}"}
     return {"confirmed": False}
+
+
+# ---- on_html_rendered: the last step of a top-level render (C08: whether dependencies are rendered at all is the caller's flag)
+def _rd(run, args, kwargs, node):
+    k = run.ghost.get("rd_calls")
+    run.ghost["rd_calls"] = Val(TInt, (k.t if k is not None else z3.IntVal(0)) + 1)
+    if run.choose(2, None) == 1:
+        raise PyRaise(ExcVal("Any", [], site="render_dependencies"))
+    return Val(TStr, ops.uf("render_dependencies_of", S, S, S)(run.coerce(args[0], TStr).t, run.coerce(args[1], TStr).t))
+
+
+REG.contract(
+    f"{COMP}:Component._render_impl.on_html_rendered", prop=P, types={"html": Str}, result=Str,
+    globals={"render_dependencies": Bool, "type": Str}, calls={"_render_dependencies": _rd},
+    modifies=[], raises={"Any": None},
+    ensures={"dependencies_rendered_exactly_when_asked_with_the_callers_type_else_html_unchanged": lambda c: c["result"].t == z3.If(
+        c.run.globals["render_dependencies"].t, ops.uf("render_dependencies_of", S, S, S)(c.old("html").t, c.run.globals["type"].t), c.old("html").t)},
+)
